@@ -49,7 +49,28 @@ def _replay_failed(task):
   from pyvc import contracts as C
   mod = importlib.import_module(modname)
   inst = getattr(mod, clsname)(variant)
-  return replay_native(inst, obligation, model)
+  r = replay_native(inst, obligation, model)
+  if (r or {}).get('outcome') != 'reproduced' and hasattr(inst, 'small_models') and hasattr(inst, 'replay'):
+    # The verifier's model is over the contract's abstract inputs (induction
+    # hypotheses, ghost values) and did not turn into a failing concrete input:
+    # search the contract's stated small scope of concrete inputs natively for
+    # one that shows the same obligation failing on the real code.
+    t0, tried = time.time(), 0
+    for m in inst.small_models():
+      if time.time() - t0 > 12:
+        break
+      tried += 1
+      try:
+        r2 = inst.replay(obligation, m)
+      except Exception:  # pylint: disable=broad-except
+        continue
+      if r2 and r2.get('outcome') == 'reproduced':
+        r2['detail'] = (f'(verifier model: {r.get("outcome")}; failing input found by bounded native search, '
+                        f'{tried} small inputs tried) ' + str(r2.get('detail', '')))
+        return r2
+    r = dict(r or {})
+    r['detail'] = str(r.get('detail', '')) + f' [bounded native search: {tried} small inputs, none fails]'
+  return r
 
 
 def replay_native(inst, obligation, model_json):
